@@ -1,6 +1,7 @@
 package fakesock
 
 import (
+	"encoding/json"
 	"fmt"
 	"io/ioutil"
 	"log"
@@ -39,7 +40,31 @@ func Main(prop string) {
 	timeout := 20 * time.Second
 
 	var cases []Case
-	if o.Replay != "" {
+	searching := o.Search != ""
+	if searching {
+		// failing-input search: variants of the histories on which model and implementation disagreed
+		var seeds []Case
+		if b, err := ioutil.ReadFile(o.Search); err == nil {
+			for _, line := range strings.Split(string(b), "\n") {
+				var w struct {
+					Case Case `json:"case"`
+				}
+				if strings.TrimSpace(line) != "" && json.Unmarshal([]byte(line), &w) == nil {
+					seeds = append(seeds, w.Case)
+				}
+			}
+		}
+		for i := 0; i < o.N; i++ {
+			cr := r.Fork()
+			if len(seeds) == 0 {
+				c := GenCase(cr, prop)
+				c.Origin = "search-fresh"
+				cases = append(cases, c)
+				continue
+			}
+			cases = append(cases, Variant(cr, seeds[cr.Intn(len(seeds))]))
+		}
+	} else if o.Replay != "" {
 		var c Case
 		if vh.ReadReplayCase(o.Replay, &c) {
 			c.Origin = "replay"
@@ -187,7 +212,7 @@ func Main(prop string) {
 		if len(terms) == 0 {
 			return
 		}
-		run.WriteCasesV(fmt.Sprintf("cases_%d.v", start), []string{"Lib.Json", "DiffMerge.Model", "Server.Model"}, "", "mismatches_from_sparse", 0, terms)
+		run.WriteCasesV(fmt.Sprintf("cases_%d.v", start), []string{"Lib.Json", "DiffMerge.Model", "Server.Model", "Server.Release", "Server.Check"}, "", "mismatches_from_sparse", 0, terms)
 		terms = nil
 	}
 	for idx, co := range outs {
@@ -263,6 +288,9 @@ func Main(prop string) {
 		run.Count(js(c), nontrivial)
 		if nontrivial {
 			run.Sample(map[string]interface{}{"case": c, "labels": co.trace.Summary()})
+		}
+		if searching {
+			continue // oracle only
 		}
 		// Coq case
 		clients := map[int]interface{}{}
